@@ -9,7 +9,7 @@ from mc import b_tf as tf_, b_alpha as ba
 PROPERTY = "C05"
 LEVEL = "exploration"
 META = {
-    "text": "Every network reachable from 5 base nets by <=1 (thorough <=2) deviations is solved by the real runpp/rundcpp and then re-solved after every applicable equivalent re-representation at every target (per-unit base 1<->100, index relabelling with gaps/permutations of buses and of each element table including switch references, row permutation, load/sgen splitting, parallel=n as n lines, line from/to swap, added out-of-service and zero-power elements, every bus split into two buses fused by a closed z=0 switch with every subset of its terminals moved); results read through the transformation's correspondence map must agree. Exhaustive within that bound, no sampling.",
+    "text": "Every network reachable from 5 base nets by <=1 deviation is solved by the real runpp/rundcpp and then re-solved after every applicable equivalent re-representation at every target (per-unit base 1<->100, index relabelling with gaps / descending labels / labels 1..n of buses and of each element table including switch references, row permutation, load/sgen splitting, parallel=n as n lines, line from/to swap, added out-of-service and zero-power elements of every kind, every bus split into two buses fused by a closed z=0 switch with the subsets of its terminals moved, both switch directions); results read through the transformation's correspondence map must agree. The thorough tier adds every option set and, for all networks at 2 deviations, one composite transformation of each kind. Exhaustive within that bound, no sampling.",
     "note": "Trusted: the transformations and the correspondence maps in mc/b_tf.py (own code, not pandapower's toolbox). Only pairs where both runs report convergence are compared; a re-representation that makes a converging calculation raise is reported. Networks beyond 5 buses and values outside the finite alphabets are not covered. ZIP loads only appear with the load-splitting clause (recorded defect C01-zip).",
     "technique": "bounded exhaustive enumeration of (network, transformation, target) pairs on the real power flow with a metamorphic equality oracle",
     "design_ref": "DESIGN.md §3 E1, §4 C05",
